@@ -350,4 +350,29 @@ THEOREM SynthesisAll ==
       <3> QED BY <3>3, <3>5, <3>6
     <2> QED BY <2>1, <2>2
   <1> QED BY <1>1, <1>2
+
+(* C02 / C10 between levels: reconstructing one level gives back N samples, or N+1 when N is odd - the one sample  *)
+(* DWT1DInverse / DWTInverse drop ("if ll is longer than the next band, unpad") is all that can ever be in excess    *)
+THEOREM RoundTripLen ==
+    \A N \in Pos, L \in EvenPos, mode \in Modes : RefSLenS(mode, RefALen(mode, N, L), L) = N + (N % 2)
+  <1> TAKE N \in Pos, L \in EvenPos, mode \in Modes
+  <1> DEFINE h == L \div 2
+  <1> DEFINE r == N % 2
+  <1> DEFINE g == N \div 2
+  <1>1. L = 2 * h /\ h \in Int /\ L \in Int  BY EvenHalf DEF Pos, EvenPos
+  <1>2. N = 2 * g + r /\ r \in 0 .. 1 /\ g \in Int /\ N \in Int
+    <2>1. 2 \in Pos /\ N \in Int  BY DEF Pos
+    <2> QED BY <2>1, DivMod
+  <1>3. CASE mode = "periodization"
+    <2>1. 2 * RefALen(mode, N, L) = N + r  BY <1>3, CoeffLenFacts DEF RefALen, EvenPos
+    <2> QED BY <2>1, <1>3 DEF RefSLenS
+  <1>4. CASE mode # "periodization"
+    <2>0. mode \in NPModes  BY <1>4 DEF NPModes
+    <2>1. RefALen(mode, N, L) = g + h - 1 + r  BY <2>0, PadAmounts DEF RefALen
+    <2>2. RefSLenS(mode, RefALen(mode, N, L), L) = 2 * (g + h - 1 + r) - L + 2  BY <2>1, <1>4 DEF RefSLenS
+    <2>3. 2 * (g + h - 1 + r) - L + 2 = N + r
+      <3> HIDE DEF g, h, r
+      <3> QED BY ONLY <1>1, <1>2
+    <2> QED BY <2>2, <2>3
+  <1> QED BY <1>3, <1>4
 =============================================================================
